@@ -27,9 +27,7 @@ theorem statEq_nsPositioner (thor : Nat) (wf : Int) (ns : Rat) (g g' : G) (h : e
   simp only [bind, Except.bind] at h
   split at h
   · cases h
-  · split at h
-    · cases h
-    · simp only [pure, Except.pure, Except.ok.injEq] at h; subst h; exact statEq_nsReadOut _ _
+  · simp only [pure, Except.pure, Except.ok.injEq] at h; subst h; exact statEq_nsReadOut _ _
 
 namespace BK
 
